@@ -1,5 +1,8 @@
 """C12 - merged regions are reported consistently (in memory; merge-map codec)."""
+from collections import defaultdict
+
 from numbers_parser.cell import MergedCell
+from numbers_parser.constants import OwnerKind
 from numbers_parser.constants import MAX_COL_COUNT, MAX_ROW_COUNT
 from numbers_parser.generated import TSTArchives_pb2 as TSTArchives
 from numbers_parser.model import MergeCells, _NumbersModel
@@ -145,20 +148,28 @@ class StubNM(Cacheable):
     number_of_rows = _NumbersModel.number_of_rows            # real accessors: a table model has them
     number_of_columns = _NumbersModel.number_of_columns
 
-    def __init__(self, nrows=0, ncols=0):
+    def __init__(self, nrows=0, ncols=0, owner=None):
         self.table = Rec(number_of_rows=nrows, number_of_columns=ncols,
                          base_data_store=Rec(merge_region_map=Rec(identifier=0)))
         self.objects = StubObjects(self.table)
-        self._merge_cells = {7: MergeCells()}
+        self._merge_cells = defaultdict(MergeCells)          # as in _NumbersModel.__init__
+        self.owner = owner
+        if owner is not None:
+            # a Numbers-authored document: the merge is recorded as a MERGE_OWNER range dependency
+            rng = Rec(top_left_row=owner[0], top_left_column=owner[1], bottom_right_row=owner[2], bottom_right_column=owner[3])
+            rec = Rec(internal_range_reference=Rec(owner_id=1, range=rng))
+            self.objects.store[50] = Rec(owner_kind=OwnerKind.MERGE_OWNER, range_dependencies=Rec(back_dependency=[rec]))
+            self.objects.store[51] = Rec(owner_kind=OwnerKind.HAUNTED_OWNER, range_dependencies=Rec(back_dependency=[rec]))
 
     def owner_id_map(self):
-        return {}
+        return {1: 77, 2: 78}
 
     def table_base_id(self, table_id):
-        return 0
+        return 77
 
     def find_refs(self, name):
-        return []
+        assert name == "FormulaOwnerDependenciesArchive"
+        return [51, 50] if self.owner is not None else []
 
     def set_reference(self, obj, ref_id):
         obj.identifier = ref_id
@@ -194,7 +205,41 @@ def h12b_codec(r0, c0, nr, nc, slack_r, slack_c):
     assert ref.rect == (r0, c0, r0 + nr - 1, c0 + nc - 1)
 
 
+def h12d_owner_and_map(a, br, bc, bh, bw):
+    """a document whose existing merge is recorded by a merge-owner dependency: a new merge added through the API is
+    saved in the region map - after save and reopen both rectangles are merged"""
+    ar, ac, ah, aw = a
+    assume(0 <= br and 0 <= bc and 1 <= bh <= 2 and 1 <= bw <= 2 and not (bh == 1 and bw == 1))
+    assume(ar + ah <= 4 and ac + aw <= 4 and br + bh <= 4 and bc + bw <= 4)
+    assume(ar + ah <= br or br + bh <= ar or ac + aw <= bc or bc + bw <= ac)      # disjoint
+    owner = (ar, ac, ar + ah - 1, ac + aw - 1)
+    w = StubNM(4, 4, owner=owner)
+    m = w.merge_cells(7)                                   # open
+    assert m.merge_cells() == [(ar, ac)]
+    # what Table.merge_cells records for a new rectangle
+    for r in range(br, br + bh):
+        for c in range(bc, bc + bw):
+            m.add_reference(r, c, (br, bc, br + bh - 1, bc + bw - 1))
+    m.add_anchor(br, bc, (bh, bw))
+    w.recalculate_merged_cells(7)                          # save
+    rd = StubNM(4, 4, owner=owner)                         # reopen: a fresh reader over the saved objects
+    rd.table = w.table
+    rd.objects = w.objects
+    m2 = rd.merge_cells(7)
+    got = m2.merge_cells()
+    assert len(got) == 2 and (ar, ac) in got and (br, bc) in got
+    assert m2.size((ar, ac)) == (ah, aw)
+    assert m2.size((br, bc)) == (bh, bw)
+    assert m2.get((br + bh - 1, bc + bw - 1)).rect == (br, bc, br + bh - 1, bc + bw - 1)
+    assert m2.get((ar + ah - 1, ac + aw - 1)).rect == owner
+
+
 HARNESSES = [
+    Harness("H12d", h12d_owner_and_map, dict(a=Cases([(0, 0, 2, 2), (0, 1, 1, 2), (2, 2, 2, 2), (1, 0, 2, 1), (3, 0, 1, 2)]), br=BVDom(3), bc=BVDom(3), bh=Cases([1, 2]), bw=Cases([1, 2])),
+            bounds="4x4 table; five owner-recorded rectangles (2x2, 1x2, 2x1 at corners/edges) x every disjoint "
+                   "rectangle of size <= 2x2 (not 1x1) at any position, added before the save",
+            stubs=["object store / dependency archives replaced by attribute bags (one MERGE_OWNER record, one record of another owner kind)"],
+            models={TSTArchives.CellID: _u32, TSTArchives.TableSize: _u32, TSTArchives.CellRange: _u32}),
     Harness("H12a", h12a_merge, lambda tier: dict(R=Cases([2, 3] if tier == "quick" else [2, 3, 4]), C=Cases([1, 2, 3] if tier == "quick" else [1, 2, 3, 4]), r0=IntDom(), c0=IntDom(), r1=IntDom(), c1=IntDom()),
             bounds="every rectangle (not 1x1) inside tables of shape {2,3} x {1,2,3} (quick) / {2,3,4} x {1..4} (thorough); range text from the real xl_range",
             outside=["reload through real archives", "shapes beyond 3x3"]),
